@@ -26,6 +26,7 @@ type HarnessSpec struct {
 	Tier     string   `json:"tier"` // "", "quick", "thorough": restricts the harness to a tier
 	Note     string   `json:"note"`
 	Merge    bool     `json:"merge"`  // enable if-conversion (state merging of pure diamonds)
+	Cross    []string `json:"cross"`  // thorough tier: re-decide the harness with these solvers and require the same verdict and path count
 	Native   bool     `json:"native"` // counterexamples are also replayed against the compiled code
 }
 
